@@ -204,9 +204,8 @@ class Interp:
             if v._term is None:
                 c = U.fresh("tup")
                 items = [self.term(i) for i in v.items]
-                seq = z3.Empty(vm.SeqV) if not items else (
-                    z3.Unit(items[0]) if len(items) == 1 else z3.Concat(*[z3.Unit(i) for i in items]))
-                U.axioms += [vm.ty(c) == vm.TAG["tuple"], vm.tup(c) == seq, vm.slen(c) == len(items)]
+                U.axioms += [vm.ty(c) == vm.TAG["tuple"], vm.tlen(c) == len(items), vm.slen(c) == len(items)]
+                U.axioms += [vm.titem(c, k) == it for k, it in enumerate(items)]
                 v._term = c
             return v._term
         if isinstance(v, Ref):
@@ -312,7 +311,7 @@ class Interp:
             return [(st, False)]
         out = []
         ft = self.feasible(st, cond)
-        ff = self.feasible(st, z3.Not(cond))
+        ff = self.feasible(st, z3.Not(cond)) if ft else True
         if ft and ff:
             s2 = st.fork()
             st.pc.append(cond)
@@ -332,7 +331,11 @@ class Interp:
         ('raise', Raise) | ('break',) | ('continue',)."""
         live = [st]
         done = []
-        for s in stmts:
+        skip_from = message_only_start(stmts)
+        for idx_, s in enumerate(stmts):
+            if skip_from is not None and skip_from <= idx_ < len(stmts) - 1:
+                self.stats["dropped"].add("message-construction statements (A-MSG)")
+                continue
             nxt = []
             for q in live:
                 for (r, oc) in self.exec_stmt(s, q, ctx):
@@ -516,18 +519,37 @@ class Interp:
             raise OutOfReach("unpack of heap object")
         if isinstance(v, Conc):
             return [(st, Raise("TypeError"))]
+        if isinstance(v, FuncV) and v.kind == "builtin" and v.data.get("name") == "$mapobj":
+            f, xs = v.data["margs"]
+            outs = []
+            for (q, its) in self.unpack(st, xs, n):
+                if isinstance(its, Raise):
+                    outs.append((q, its))
+                    continue
+                res = [(q, [])]
+                for it in its:
+                    nxt = []
+                    for (r, acc) in res:
+                        if isinstance(acc, Raise):
+                            nxt.append((r, acc))
+                            continue
+                        for (z, w) in self.call(f, [it], {}, r, {}):
+                            nxt.append((z, w if isinstance(w, Raise) else acc + [w]))
+                    res = nxt
+                outs += res
+            return outs
         t = self.term(v)
         # a symbolic value: a tuple of length n unpacks; a tuple of another length raises
         # ValueError; other iterables are outside the model (scope: tuple-typed values),
         # non-iterables raise TypeError
         outs = []
         for (q, knd) in self.multi_branch(st, [
-                ("ok", z3.And(self.U.has_type(t, ["tuple", "list"]), z3.Length(vm.tup(t)) == n)),
+                ("ok", z3.And(self.U.has_type(t, ["tuple", "list"]), vm.tlen(t) == n)),
                 ("badlen", self.U.has_type(t, ["tuple", "list"]))]):
             if knd == "ok":
                 items = []
                 for i in range(n):
-                    it = z3.simplify(vm.tup(t)[i])
+                    it = vm.titem(t, i)
                     self.U.well_typed(it)
                     items.append(Sym(it))
                 outs.append((q, items))
@@ -1082,6 +1104,25 @@ class Interp:
                 return list(h.fields["$items"])
         return None
 
+    def path_known_items(self, st, v, maxlen=4):
+        """Items of a symbolic tuple/list whose length is determined by the path condition."""
+        its = self.known_items(st, v)
+        if its is not None:
+            return its
+        if isinstance(v, Sym):
+            t = v.t
+            if not self.valid(st, self.U.has_type(t, ["tuple", "list"])):
+                return None
+            for k in range(maxlen + 1):
+                if self.valid(st, vm.tlen(t) == k):
+                    items = []
+                    for i in range(k):
+                        it = vm.titem(t, i)
+                        self.U.well_typed(it)
+                        items.append(Sym(it))
+                    return items
+        return None
+
     def known_dict(self, st, v):
         if isinstance(v, Ref):
             h = st.heap[v.oid]
@@ -1152,6 +1193,32 @@ class Interp:
     def call(self, fv, args, kwargs, st, ctx):
         from . import calls
         return calls.call(self, fv, args, kwargs, st, ctx)
+
+
+def message_only_start(stmts):
+    """A block that ends in `raise`: the maximal run of statements before the raise that only
+    build the exception message (they store only to local names, contain no return / raise /
+    yield / attribute or subscript store / del).  They are skipped — assumption A-MSG: code
+    that only builds the text of an exception message is pure and does not raise."""
+    if not stmts or not isinstance(stmts[-1], ast.Raise) or len(stmts) == 1:
+        return None
+    k = len(stmts) - 1
+    while k > 0:
+        s = stmts[k - 1]
+        ok = isinstance(s, (ast.Assign, ast.AugAssign, ast.If, ast.For, ast.Expr))
+        if ok:
+            for n in ast.walk(s):
+                if isinstance(n, (ast.Return, ast.Raise, ast.Yield, ast.YieldFrom, ast.Delete, ast.Global,
+                                  ast.Nonlocal, ast.With, ast.Try, ast.While, ast.Await)):
+                    ok = False
+                    break
+                if isinstance(n, (ast.Attribute, ast.Subscript)) and isinstance(n.ctx, ast.Store):
+                    ok = False
+                    break
+        if not ok:
+            break
+        k -= 1
+    return k if k < len(stmts) - 1 else None
 
 
 def _as_load(t):
